@@ -183,6 +183,8 @@ def apply_reference(repo):
     for q in list(repo.inlined_helpers):
         if q in repo.funcs:
             _merge_renamed_locals(repo.funcs[q])
+            _thread_none_tests(repo.funcs[q].node)
+    repo.unrolled_tables = unroll_constant_tables(repo, ref)
     renamed = {}
     for q, fi in repo.funcs.items():
         if fi.is_lambda or q not in ref:
@@ -234,6 +236,7 @@ def apply_reference(repo):
     except RecursionError:
         inl = {}
     repo.inlined_aliases = inl
+    repo.propagated_constants = propagate_new_constants(repo, ref) if not os.environ.get("VERIF_NO_FOLD_TEMPS") else {}
     repo.folded_temporaries = inline_new_temporaries(repo, ref) if not os.environ.get("VERIF_NO_FOLD_TEMPS") else {}
     repo.respelled = respell(repo, ref)
     repo.positional = positional_calls(repo, ref)
@@ -812,6 +815,8 @@ def inline_new_temporaries(repo, ref):
                     in_target = isinstance(nxt, (ast.Assign, ast.AugAssign, ast.AnnAssign)) and not any(x is use for x in ast.walk(nxt.value)) if hasattr(nxt, "value") and nxt.value is not None else False
                     for c in ast.walk(root):
                         if isinstance(c, (ast.Call, ast.Await, ast.Yield, ast.YieldFrom, ast.NamedExpr)) and id(c) not in anc_ids and not any(x is c for x in ast.walk(use)):
+                            if isinstance(c, ast.Call) and isinstance(c.func, ast.Name) and c.func.id == "super" and not c.args and not c.keywords:
+                                continue    # zero-argument super() has no effect and reads nothing E could change
                             if in_target or _pos(c) < _pos(use):
                                 bad = True
                                 break
@@ -826,6 +831,239 @@ def inline_new_temporaries(repo, ref):
                 if progress:
                     break
     return folded
+
+
+def _table_literals(repo):
+    """{(class name or None, NAME): [element ast, ...]} for NAME = (<literal rows>) bound exactly once in a class body / at
+    module level where nothing in the package stores an attribute or global of that name: a dispatch table"""
+    cached = getattr(repo, "_table_literals", None)
+    if cached is not None:
+        return cached
+    stored = set()
+    for m in repo.modules.values():
+        for n in ast.walk(m.tree):
+            if isinstance(n, ast.Attribute) and isinstance(n.ctx, (ast.Store, ast.Del)):
+                stored.add(n.attr)
+            if isinstance(n, ast.Global):
+                stored |= set(n.names)
+            if isinstance(n, ast.Call) and isinstance(n.func, ast.Name) and n.func.id in ("setattr", "delattr") and len(n.args) >= 2 and isinstance(n.args[1], ast.Constant):
+                stored.add(n.args[1].value)
+
+    def simple(e):
+        if isinstance(e, (ast.Constant, ast.Name)):
+            return True
+        if isinstance(e, ast.Attribute):
+            return simple(e.value)
+        return False
+    out = {}
+    for m in repo.modules.values():
+        scopes = [(None, m.tree.body)] + [(c.name, c.body) for c in m.tree.body if isinstance(c, ast.ClassDef)]
+        for cname, body in scopes:
+            count = {}
+            for st in body:
+                for t in (st.targets if isinstance(st, ast.Assign) else [st.target] if isinstance(st, (ast.AugAssign, ast.AnnAssign)) else []):
+                    for x in ast.walk(t):
+                        if isinstance(x, ast.Name):
+                            count[x.id] = count.get(x.id, 0) + 1
+            for st in body:
+                if isinstance(st, ast.Assign) and len(st.targets) == 1 and isinstance(st.targets[0], ast.Name) and isinstance(st.value, (ast.Tuple, ast.List)):
+                    name = st.targets[0].id
+                    if count.get(name) != 1 or name in stored:
+                        continue
+                    rows = st.value.elts
+                    if all(simple(r) or (isinstance(r, ast.Tuple) and all(simple(x) for x in r.elts)) for r in rows):
+                        out[(m.name, cname, name)] = rows
+    repo._table_literals = out
+    return out
+
+
+def unroll_constant_tables(repo, ref):
+    """`for a, b in self.TABLE: BODY` over a literal class-level / module-level table that nothing ever rebinds is BODY once per
+    row with the row's entries in place of a and b (no break / continue in BODY, the loop variables are not used afterwards);
+    getattr(x, "name") with a literal name is x.name.  A table-driven dispatch becomes the if-chain it abbreviates."""
+    tables = _table_literals(repo)
+    done = {}
+    if not tables:
+        return done
+    for q, fi in repo.funcs.items():
+        if fi.is_lambda or q not in ref:
+            continue
+        for owner, field, blk in _blocks(fi.node):
+            i = 0
+            while i < len(blk):
+                st = blk[i]
+                i += 1
+                if not (isinstance(st, ast.For) and not st.orelse):
+                    continue
+                it = st.iter
+                key = None
+                if isinstance(it, ast.Attribute) and isinstance(it.value, ast.Name):
+                    if it.value.id in ("self", "cls") and fi.cls is not None and fi.params and fi.params[0] == it.value.id:
+                        key = (fi.module.name, fi.cls.name, it.attr)
+                    else:
+                        key = (fi.module.name, it.value.id, it.attr)
+                elif isinstance(it, ast.Name):
+                    key = (fi.module.name, None, it.id)
+                rows = tables.get(key)
+                if rows is None:
+                    continue
+                tg = st.target
+                names = [tg.id] if isinstance(tg, ast.Name) else [x.id for x in tg.elts] if isinstance(tg, ast.Tuple) and all(isinstance(x, ast.Name) for x in tg.elts) else None
+                if names is None or len(set(names)) != len(names):
+                    continue
+                if isinstance(tg, ast.Tuple) and not all(isinstance(r, ast.Tuple) and len(r.elts) == len(names) for r in rows):
+                    continue
+                inner = [x for s_ in st.body for x in ast.walk(s_)]
+                # break / continue of this loop (not of a nested one)
+                def own_jumps(stmts):
+                    for s_ in stmts:
+                        if isinstance(s_, (ast.Break, ast.Continue)):
+                            return True
+                        if isinstance(s_, (ast.For, ast.While, ast.FunctionDef, ast.AsyncFunctionDef, ast.ClassDef)):
+                            continue
+                        for f in ("body", "orelse", "finalbody"):
+                            if own_jumps(getattr(s_, f, []) or []):
+                                return True
+                        if isinstance(s_, ast.Try) and any(own_jumps(h.body) for h in s_.handlers):
+                            return True
+                    return False
+                if own_jumps(st.body):
+                    continue
+                if any(isinstance(x, ast.Name) and x.id in names and isinstance(x.ctx, (ast.Store, ast.Del)) for x in inner):
+                    continue
+                inner_ids = {id(x) for x in inner} | {id(x) for x in ast.walk(tg)}
+                if any(isinstance(x, ast.Name) and x.id in names and id(x) not in inner_ids for x in walk_own(fi.node)):
+                    continue
+                if any(isinstance(x, (ast.Lambda, ast.FunctionDef)) for x in inner):
+                    continue
+                fresh = []
+                for r in rows:
+                    vals = [r] if isinstance(tg, ast.Name) else list(r.elts)
+                    mapping = {n: "(%s)" % ast.unparse(v) for n, v in zip(names, vals)}
+                    mod = ast.parse("\n".join(ast.unparse(s_) for s_ in st.body))
+                    mod = _SubstNames(mapping).visit(mod)
+                    ast.fix_missing_locations(mod)
+                    fresh += ast.parse(ast.unparse(mod)).body
+                if not fresh:
+                    fresh = [ast.Pass()]
+                for s_ in fresh:
+                    for y in ast.walk(s_):
+                        ast.copy_location(y, st)
+                        for ch in ast.iter_child_nodes(y):
+                            ch._parent = y
+                    s_._parent = owner
+                blk[i - 1:i] = fresh
+                i += len(fresh) - 1
+                _invalidate(owner)
+                done.setdefault(q, []).append(key[2])
+        if q in done:
+            # getattr(x, "name") -> x.name
+            for c in [n for n in walk_own(fi.node) if isinstance(n, ast.Call)]:
+                if isinstance(c.func, ast.Name) and c.func.id == "getattr" and len(c.args) == 2 and not c.keywords and isinstance(c.args[1], ast.Constant) \
+                        and isinstance(c.args[1].value, str) and c.args[1].value.isidentifier():
+                    _install(c, ast.Attribute(value=c.args[0], attr=c.args[1].value, ctx=ast.Load()))
+    if done:
+        _clear_analysis_caches()
+    return done
+
+
+def _constant_expr(e, repo):
+    """an expression whose value is fixed by the program text: literals, arithmetic / tuples over such, struct.calcsize and len of
+    such, and attributes of a package class that nothing in the package ever assigns outside the class body"""
+    if isinstance(e, ast.Constant):
+        return True
+    if isinstance(e, ast.BinOp):
+        return _constant_expr(e.left, repo) and _constant_expr(e.right, repo)
+    if isinstance(e, ast.UnaryOp):
+        return _constant_expr(e.operand, repo)
+    if isinstance(e, ast.Tuple):
+        return all(_constant_expr(x, repo) for x in e.elts)
+    if isinstance(e, ast.Call) and not e.keywords and len(e.args) == 1 and ast.unparse(e.func) in ("struct.calcsize", "len"):
+        return _constant_expr(e.args[0], repo)
+    if isinstance(e, ast.Attribute) and isinstance(e.value, ast.Name):
+        return (e.value.id, e.attr) in _stable_class_attributes(repo)
+    return False
+
+
+def _stable_class_attributes(repo):
+    """(Class, ATTR) pairs: ATTR is bound to a literal in the class body of a package class and no statement of the package
+    stores to an attribute of that name (Packet's MTU-dependent attributes are therefore not stable)"""
+    cached = getattr(repo, "_stable_attrs", None)
+    if cached is not None:
+        return cached
+    stored = set()
+    dynamic_on = set()      # first arguments of setattr / delattr calls with a computed attribute name
+    for m in repo.modules.values():
+        for n in ast.walk(m.tree):
+            if isinstance(n, ast.Attribute) and isinstance(n.ctx, (ast.Store, ast.Del)):
+                stored.add(n.attr)
+            if isinstance(n, ast.Call) and isinstance(n.func, ast.Name) and n.func.id in ("setattr", "delattr"):
+                if len(n.args) >= 2 and isinstance(n.args[1], ast.Constant):
+                    stored.add(n.args[1].value)
+                else:
+                    dynamic_on.add(ast.unparse(n.args[0]) if n.args else "*")
+    out = set()
+    # computed attribute names are only ever set on the receiver of a method (self / cls / inst of Serializable and its metaclass):
+    # classes with a base other than object could be such receivers and are left out
+    if dynamic_on <= {"self", "cls", "inst"}:
+        for m in repo.modules.values():
+            for c in m.tree.body:
+                if isinstance(c, ast.ClassDef) and all(isinstance(b_, ast.Name) and b_.id == "object" for b_ in c.bases) and not c.keywords:
+                    for st in c.body:
+                        if isinstance(st, ast.Assign) and len(st.targets) == 1 and isinstance(st.targets[0], ast.Name) and isinstance(st.value, ast.Constant) \
+                                and st.targets[0].id not in stored and st.targets[0].id.isupper():
+                            out.add((c.name, st.targets[0].id))
+    repo._stable_attrs = out
+    return out
+
+
+def propagate_new_constants(repo, ref):
+    """`k = <constant expression>` for a local k the reference version does not have, bound exactly once, is every read of k
+    with the expression in place of the name: the value cannot differ between the binding and any read, evaluating it has no
+    effect, and every read is dominated by the binding (so no read could have failed for an unbound name)."""
+    from .cfg import cfg_of
+    done = {}
+    for q, fi in repo.funcs.items():
+        if fi.is_lambda or q not in ref:
+            continue
+        ref_locals = {n for n, _ in ref[q]["locals"]} | set(ref[q]["params"])
+        nested = _nested_uses(fi.node)
+        progress = True
+        while progress:
+            progress = False
+            for owner, field, blk in _blocks(fi.node):
+                for i, st in enumerate(blk):
+                    if not (isinstance(st, ast.Assign) and len(st.targets) == 1 and isinstance(st.targets[0], ast.Name)):
+                        continue
+                    name = st.targets[0].id
+                    if name in ref_locals or name in nested or not _constant_expr(st.value, repo):
+                        continue
+                    occ = [n for n in walk_own(fi.node) if isinstance(n, ast.Name) and n.id == name]
+                    loads = [n for n in occ if isinstance(n.ctx, ast.Load)]
+                    if len(occ) - len(loads) != 1 or not loads:
+                        continue
+                    if any(isinstance(x, ast.Global) and name in x.names or isinstance(x, ast.Nonlocal) and name in x.names for x in ast.walk(fi.node)):
+                        continue
+                    _clear_analysis_caches()
+                    cfg = cfg_of(fi)
+                    dn = cfg.node_of(st)
+                    if dn is None or not all(cfg.node_of(u) is not None and cfg.node_of(u).id != dn.id and cfg.dominates(dn.id, cfg.node_of(u).id) for u in loads):
+                        continue
+                    for u in loads:
+                        _install(u, st.value)
+                    if len(blk) == 1:
+                        blk[i] = ast.copy_location(ast.Pass(), st)
+                        blk[i]._parent = getattr(st, "_parent", None)
+                    else:
+                        del blk[i]
+                    _invalidate(owner)
+                    done.setdefault(q, []).append(name)
+                    progress = True
+                    break
+                if progress:
+                    break
+    _clear_analysis_caches()
+    return done
 
 
 # ----------------------------------------------------------------------------------------------------------------------
@@ -1253,7 +1491,8 @@ def inline_new_helpers(repo, full_ref):
                             return []
                         return [ast.Expr(value=value)]
                     if form == "assign":
-                        return [ast.parse("%s = %s" % (tgt, ast.unparse(value) if value is not None else "None")).body[0]]
+                        # the caller's target is kept out of the renaming of clashing helper locals (placeholder, put back below)
+                        return [ast.parse("_TGT_ = %s" % (ast.unparse(value) if value is not None else "None")).body[0]]
                     return [ast.Return(value=value)]
                 body = [s for s in h.node.body if not (isinstance(s, ast.Expr) and isinstance(s.value, ast.Constant) and isinstance(s.value.value, str))]
                 body = ast.parse("\n".join(ast.unparse(s) for s in body) or "pass").body
@@ -1264,7 +1503,7 @@ def inline_new_helpers(repo, full_ref):
                     new = new + conv(None) if form != "expr" else new
                 mod = ast.Module(body=prelude + new, type_ignores=[])
                 ast.fix_missing_locations(mod)
-                fresh = _drop_noops(ast.parse(ast.unparse(_SubstNames(mapping).visit(mod)) or "pass").body) or [ast.Pass()]
+                fresh = _drop_noops(ast.parse(ast.unparse(_SubstNames(mapping).visit(mod)).replace("_TGT_", tgt or "_") or "pass").body) or [ast.Pass()]
                 blk, idx = _block_of(st)
                 if blk is None:
                     raise _Refuse("call statement not in a block")
@@ -1283,6 +1522,7 @@ def inline_new_helpers(repo, full_ref):
             continue
         for (fi, _c, _st, _f, _o, _r) in sites:
             _thread_flags(fi.node)
+            _thread_none_tests(fi.node)
         # every call was inlined: the helper is gone from the translated program
         del repo.funcs[hq]
         if h.cls is not None:
@@ -1458,6 +1698,61 @@ def _thread_flags(fnode):
                     l[-1:] = rep or [ast.copy_location(ast.Pass(), s2)]
                     if not rep:
                         l[-1]._parent = parent
+                del blk[i + 1]
+                _cleanup(fnode)
+                _invalidate(owner)
+                changed = True
+                break
+            if changed:
+                break
+
+
+def _thread_none_tests(fnode):
+    """S; if X is None: A else: B   (or `is not None`) where every normal way out of the compound statement S ends with an
+    assignment to the local X and at least one of them assigns a constant: the test moves to the ends of S - decided for the
+    constants, repeated after the assignment for the other values.  This is what an extracted `return None` / `return value`
+    helper looks like after it was put back at its call site."""
+    changed = True
+    rounds = 0
+    while changed and rounds < 20:
+        changed = False
+        rounds += 1
+        for owner, field, blk in _blocks(fnode):
+            for i in range(len(blk) - 1):
+                s1, s2 = blk[i], blk[i + 1]
+                if not (isinstance(s2, ast.If) and isinstance(s2.test, ast.Compare) and len(s2.test.ops) == 1 and isinstance(s2.test.ops[0], (ast.Is, ast.IsNot))
+                        and isinstance(s2.test.left, ast.Name) and isinstance(s2.test.comparators[0], ast.Constant) and s2.test.comparators[0].value is None):
+                    continue
+                var = s2.test.left.id
+                is_none = isinstance(s2.test.ops[0], ast.Is)
+                leaves = _leaves(s1)
+                if not leaves:
+                    continue
+                live = [l for l in leaves if not isinstance(l[-1], (ast.Return, ast.Raise, ast.Continue, ast.Break))]
+                if not live or not all(isinstance(l[-1], ast.Assign) and len(l[-1].targets) == 1 and isinstance(l[-1].targets[0], ast.Name) and l[-1].targets[0].id == var for l in live):
+                    continue
+                if not any(isinstance(l[-1].value, ast.Constant) for l in live):
+                    continue
+                for l in live:
+                    v = l[-1].value
+                    parent = l[-1]._parent
+                    if isinstance(v, ast.Constant):
+                        suite = s2.body if ((v.value is None) == is_none) else s2.orelse
+                        rep = [ast.parse(ast.unparse(x)).body[0] for x in suite]
+                    else:
+                        rep = [ast.parse(ast.unparse(s2)).body[0]]
+                    for r in rep:
+                        for y in ast.walk(r):
+                            ast.copy_location(y, l[-1])
+                            for ch in ast.iter_child_nodes(y):
+                                ch._parent = y
+                        r._parent = parent
+                    dead = isinstance(v, ast.Constant) and rep and _always_returns(rep) and \
+                        not any(isinstance(x, ast.Name) and x.id == var for r in rep for x in ast.walk(r))
+                    if (isinstance(v, ast.Name) and v.id == var) or dead:
+                        l[-1:] = rep          # `x = x` left by the inlining of `return x`; a constant nobody reads before the function is left
+                    else:
+                        l.extend(rep)
                 del blk[i + 1]
                 _cleanup(fnode)
                 _invalidate(owner)
